@@ -399,6 +399,35 @@ class Abstract(object):
                 return s * (1 if c == 1 else -1)
         return None
 
+    def bounds(self, a, b):
+        """(lo, hi) bounds (None = unbounded) of a - b for integer limits whose order is known, else None."""
+        if a is None or b is None or a.inf or b.inf or getattr(a, 'nan', False) or getattr(b, 'nan', False):
+            return None
+        coef = dict(a.coef)
+        for k, c in b.coef.items():
+            coef[k] = coef.get(k, 0) - c
+        coef = {k: c for k, c in coef.items() if c != 0}
+        const = a.const - b.const
+        if coef == {'lower': 1, 'upper': -1} or coef == {'lower': -1, 'upper': 1}:
+            rel = {'lt': -1, 'eq': 0, 'gt': 1}[self.w['rel']] * (1 if coef['lower'] == 1 else -1)
+            if rel < 0:
+                return (None, const - 1)
+            if rel > 0:
+                return (const + 1, None)
+            return (const, const)
+        if len(coef) == 2 and 'infty_val' in coef and abs(coef['infty_val']) == 1:
+            (name, c), = [(k, v) for k, v in coef.items() if k != 'infty_val']
+            if name in ('lower', 'upper') and abs(c) == 1:
+                pos = self.w.cls(name).get('pos', 'within')
+                if c == coef['infty_val']:               # c * (v + C): v + C >= 1 unless v lies below the cutoff range
+                    lo, hi = (None, -1) if pos == 'below' else (1, None)
+                else:                                    # c * (v - C): v - C <= -1 unless v lies above the cutoff range
+                    lo, hi = (1, None) if pos == 'above' else (None, -1)
+                if c == -1:
+                    lo, hi = (None if hi is None else -hi), (None if lo is None else -lo)
+                return (None if lo is None else lo + const, None if hi is None else hi + const)
+        return None
+
     def truth(self, e):
         try:
             return bool(self.guards.compile(nf.canon(e))(self.w))
@@ -431,7 +460,23 @@ def _summation_guards():
 
             def run(w, left=left, right=right, f=f):
                 ab = Abstract(w, holder['g'])
-                c = ab.compare(ab.value(left), ab.value(right))
+                # abs(x) against infinity asks whether x is infinite, whatever its sign
+                for a_, b_ in ((left, right), (right, left)):
+                    if isinstance(a_, ast.Call) and isinstance(a_.func, ast.Name) and a_.func.id == 'abs' and len(a_.args) == 1 and inf_sign(b_) == 1:
+                        v_ = ab.value(a_.args[0])
+                        if v_ is not None and not getattr(v_, 'nan', False):
+                            return f(0 if v_.inf else (-1 if a_ is left else 1))
+                va, vb = ab.value(left), ab.value(right)
+                c = ab.compare(va, vb)
+                if c is None:
+                    bd = ab.bounds(va, vb)
+                    if bd is not None:
+                        lo, hi = bd
+                        outcomes = {f(x) for x in ((-1,) if hi is not None and hi < 0 else ()) + ((0,) if (lo is None or lo <= 0) and (hi is None or hi >= 0) else ())
+                                    + ((1,) if lo is not None and lo > 0 else ())
+                                    + ((-1,) if (hi is None or hi >= 0) and (lo is None or lo < 0) else ()) + ((1,) if (lo is None or lo <= 0) and (hi is None or hi > 0) else ())}
+                        if len(outcomes) == 1:
+                            return outcomes.pop()
                 if c is None:
                     raise X.Unrecognised('comparison `%s` not decidable in the abstract domain' % short(e))
                 if c == 'nan':
@@ -493,7 +538,16 @@ def d1_summation(ctx, idx):
             raise AnalysisError('perform_summation: signature changed: %s' % fi0.params)
         fi1, done = X.inline_decision_calls(idx, fi0, only=set(getattr(idx, 'unreviewed', None) or []))
         X.settle_unreviewed(idx, done, {fi0.qualname})
-        fi = X.unrolled(fi1)
+        def table(e):
+            """A class- or module-level constant bound once to a dict display."""
+            v = None
+            if isinstance(e, ast.Name):
+                vals = fi0.module.assigns.get(e.id, [])
+                v = vals[0] if len(vals) == 1 else None
+            elif isinstance(e, ast.Attribute) and isinstance(e.value, ast.Name) and fi0.cls is not None and e.value.id in ('self', 'cls', fi0.cls.name):
+                v = fi0.cls.attrs.get(e.attr)
+            return v if isinstance(v, ast.Dict) else None
+        fi = X.unrolled(X.expand_table_lookups(fi1, table))
         fn = fi.node
         paths = nf.decision_paths(fn.body)
         guards = _summation_guards()
@@ -510,6 +564,7 @@ def d1_summation(ctx, idx):
             'finite': 'perform_summation: finite limits are used as given (also beyond the cutoff)',
         }
         stats = {k: {'n': 0, 'bad': []} for k in names}
+        _sort_before_alignment(r, fi)
         need_sign = need_sign or any(isinstance(n, ast.BinOp) and isinstance(n.op, ast.Mult) for n in ast.walk(fn))
         M = 2
         for n in ast.walk(fn):
@@ -548,6 +603,59 @@ def d1_summation(ctx, idx):
         callers = [f for f in idx.package_funcs() if lib.calls_named(f.node, 'perform_summation')]
         if [f.qualname for f in callers] != [SG + '.evaluate_sum']:
             r.undecided('perform_summation: callers', 'called from %s' % [f.qualname for f in callers], fi.loc)
+
+
+def _sort_before_alignment(r, fi):
+    """Two rewrites of the pair of limits: the exchange that orders them and the +1 that moves the first term onto the
+    requested parity.  The alignment must act on the limit that IS the smaller one, i.e. the exchange comes first."""
+    fn = fi.node
+    swaps, aligns = [], []
+    for st in walk_own(fn):
+        if isinstance(st, ast.Assign) and len(st.targets) == 1 and isinstance(st.targets[0], ast.Tuple) and isinstance(st.value, ast.Tuple) \
+                and len(st.targets[0].elts) == 2 and len(st.value.elts) == 2 and all(isinstance(x, ast.Name) for x in st.targets[0].elts + st.value.elts) \
+                and [x.id for x in st.targets[0].elts] == [x.id for x in st.value.elts][::-1] and st.targets[0].elts[0].id != st.targets[0].elts[1].id:
+            names = {x.id for x in st.targets[0].elts}
+            gate = [a for a in _enclosing_ifs(st, fn)]
+            if gate and isinstance(nf.canon(gate[0].test), ast.Compare) and names <= X.names_loaded(gate[0].test):
+                swaps.append((st, names))
+        inc = None
+        if isinstance(st, ast.AugAssign) and isinstance(st.op, (ast.Add, ast.Sub)) and isinstance(st.target, ast.Name) \
+                and isinstance(st.value, ast.Constant) and st.value.value == 1:
+            inc = st.target.id
+        elif isinstance(st, ast.Assign) and len(st.targets) == 1 and isinstance(st.targets[0], ast.Name) and X.any_match(
+                ["%s + 1" % st.targets[0].id, "%s - 1" % st.targets[0].id, "1 + %s" % st.targets[0].id], st.value) is not None:
+            inc = st.targets[0].id
+        if inc:
+            gate = [a for a in _enclosing_ifs(st, fn)]
+            if gate and any(isinstance(n, ast.BinOp) and isinstance(n.op, ast.Mod) for n in ast.walk(gate[0].test)):
+                aligns.append((st, inc))
+    if len(swaps) != 1 or not aligns:
+        return
+    sw, names = swaps[0]
+    construct = 'perform_summation: the limits are ordered before the first term is moved onto the requested parity'
+    late = [(st, n) for st, n in aligns if n in names and not X.dominates(fi, sw.targets[0] and _enclosing_ifs_top(sw, fn), st)]
+    cfg = cfg_of(fn)
+    reach_sw = []
+    for st, n in aligns:
+        nodes = cfg.nodes_of(st)
+        if n in names and nodes and any(x in cfg.reach(nodes, include_starts=False) for x in cfg.nodes_of(sw)):
+            reach_sw.append((st, n))
+    if reach_sw:
+        st, n = reach_sw[0]
+        r.violation(construct, '`%s` (parity alignment of `%s`) runs BEFORE the exchange `%s` that orders the limits: with limits given in '
+                    'reverse order the limit that was aligned ends up as the END of the range and the sum starts at the other, unaligned '
+                    'limit (terms of the wrong parity are summed); with equal limits of the wrong parity the shifted limit overtakes the '
+                    'other one and the exchange turns the empty range into a one-term range' % (short(st), n, short(sw)),
+                    lib.loc(fi, st), expected='order the limits first, then align the first term')
+    elif not late:
+        r.ok(construct, '`%s` dominates the alignment' % short(sw), lib.loc(fi, sw))
+
+
+def _enclosing_ifs_top(st, fn):
+    top = st
+    for a_ in _enclosing_ifs(st, fn):
+        top = a_
+    return top
 
 
 def _limit_text(name, c):
@@ -734,7 +842,17 @@ def d2_limits(ctx, idx):
                 continue
             st = cands[0]
             conj = _path_condition(st, fn)
-            eff = nf.canon(ast.BoolOp(op=ast.And(), values=conj)) if len(conj) > 1 else st.test
+            # the same check repeated on both sides of a decision about the OTHER limit (a loop over the two limits, unrolled):
+            # the foreign condition drops out when the copies cover it and its negation
+            foreign = [[c_ for c_ in _path_condition(x, fn) if not X.mentions(c_, V)] for x in cands]
+            if len(cands) == 2 and all(len(f_) == 1 for f_ in foreign) and \
+                    unparse(nf.canon(foreign[0][0])) == unparse(nf.canon(nf.negate(nf.canon(foreign[1][0])))):
+                own = [[c_ for c_ in _path_condition(x, fn) if X.mentions(c_, V)] for x in cands]
+                if unparse(ast.Tuple(elts=[nf.canon(c_) for c_ in own[0]], ctx=ast.Load())) == \
+                        unparse(ast.Tuple(elts=[nf.canon(c_) for c_ in own[1]], ctx=ast.Load())) and \
+                        all(X.body_raises(x.body) == X.body_raises(st.body) for x in cands):
+                    conj = own[0]
+            eff = nf.canon(ast.BoolOp(op=ast.And(), values=conj)) if len(conj) > 1 else conj[0]
             pats = ["abs(%s) != float('inf') and int(%s) != %s" % (V, V, V), "abs(%s) != float('inf') and %s %% 1 != 0" % (V, V),
                     "abs(%s) != float('inf') and not float(%s).is_integer()" % (V, V),
                     "%s != float('inf') and %s != -float('inf') and int(%s) != %s" % (V, V, V, V)]
@@ -1835,7 +1953,13 @@ _W5R_STEP = [('        # Handle even/odd numbers only\n        if even_odd == 1:
 _W5R_COUNT = ('        used_inputs = [key for key in self.true_input_positions\n                       if self.true_input_positions[key] is not None]\n        if len(used_inputs) != len(student_input):\n            # This is a ConfigError because it should only be trigged if author\n            # included wrong number of inputs in the <customresponse> problem.\n            sorted_inputs = sorted(used_inputs, key=lambda x: self.true_input_positions[x])\n            msg = ("Expected {expected} student inputs but found {found}. "\n                   "Inputs should  appear in order {order}.")\n            raise ConfigError(msg.format(expected=len(used_inputs),\n                                         found=len(student_input),\n                                         order=sorted_inputs)\n                              )\n\n        structured_input = transform_list_to_dict(student_input,\n                                                  self.config[\'answers\'],\n                                                  self.true_input_positions)\n\n        return structured_input\n\n', "        positions = self.true_input_positions\n        used_inputs = [key for key, position in positions.items() if position is not None]\n        if len(used_inputs) == len(student_input):\n            return transform_list_to_dict(student_input, self.config['answers'], positions)\n        msg = 'Expected {expected} student inputs but found {found}.'\n        raise ConfigError(msg.format(expected=len(used_inputs), found=len(student_input)))\n\n")
 _W5R_BLANK = ('        for key in structured_input:\n            if structured_input[key] == \'\':\n                msg = "Please enter a value for {key}, it cannot be empty."\n                raise MissingInput(msg.format(key=key))\n', '        blank_keys = (key for key, value in structured_input.items() if value == \'\')\n        first_blank = next(blank_keys, None)\n        if first_blank is not None:\n            msg = "Please enter a value for {key}, it cannot be empty."\n            raise MissingInput(msg.format(key=first_blank))\n')
 
+_W6_BODY = ("        # Sort the limits\n        if lower > upper:\n            lower, upper = upper, lower\n            \n        # Handle infinities\n        if lower == -float('inf'):\n            lower = -infty_val\n        if upper == float('inf'):\n            upper = infty_val\n        if upper == -float('inf'):\n            # Only occurs if both upper and lower are both -inf\n            raise SummationError('Cannot sum from -infty to -infty.')\n        if lower == float('inf'):\n            # Only occurs if both upper and lower are both inf\n            raise SummationError('Cannot sum from infty to infty.')\n            \n        # Handle even/odd numbers only\n        if even_odd == 1:\n            # Odd numbers only\n            delta = 2\n            if abs(lower % 2) != 1:\n                lower += 1\n        elif even_odd == 2:\n            # Even numbers only\n            delta = 2\n            if abs(lower % 2) != 0:\n                lower += 1\n        else:\n            delta = 1\n\n        # Because the summand can be a vector/matrix/tensor and can also contain\n        # user-defined functions, we can't just use numpy vector math here. Have\n        # to for-loop it the old-fashioned way, and hope it's not too slow...\n        # Note that we need to convert floats to integers for range.\n        evals = [eval_summand(n) for n in range(int(lower), int(upper + 1), delta)]\n", "        # Because the summand can be a vector/matrix/tensor and can also contain\n        # user-defined functions, we can't just use numpy vector math here. Have\n        # to for-loop it the old-fashioned way, and hope it's not too slow...\n        indices = SumGrader.summation_indices(lower, upper, even_odd, infty_val)\n        evals = [eval_summand(n) for n in indices]\n")
+_W6_TAIL = ('        result = sum(evals)\n\n        return result\n', '        result = sum(evals)\n\n        return result\n\n    # For each setting of even_odd, the step between successive terms of the sum\n    # and the parity (n % 2) that every term must have (None when all integers count)\n    index_patterns = {\n        0: (1, None),  # Every number\n        1: (2, 1),     # Odd numbers only\n        2: (2, 0),     # Even numbers only\n    }\n\n    @staticmethod\n    def finite_limit(limit, infty_val):\n        """Replace an infinite summation limit by the large number standing in for it"""\n        if abs(limit) == float(\'inf\'):\n            return infty_val if limit > 0 else -infty_val\n        return limit\n\n    @staticmethod\n    def summation_indices(lower, upper, even_odd, infty_val=1e3):\n        """\n        Construct the range of integers that a summation runs over.\n\n        Arguments are as for perform_summation. The limits may be given in either\n        order, and may be infinite (but not both the same infinity).\n        """\n        # A sum between two copies of the same infinity has no terms to cut off at\n        if lower == upper and abs(lower) == float(\'inf\'):\n            name = \'infty\' if lower > 0 else \'-infty\'\n            raise SummationError(\'Cannot sum from {0} to {0}.\'.format(name))\n\n        # Handle infinities. Note that we need to convert floats to integers for range.\n        first = int(SumGrader.finite_limit(lower, infty_val))\n        last = int(SumGrader.finite_limit(upper, infty_val))\n\n@@ORDER@@        return range(first, last + 1, delta)\n')
+_W6_ALIGN = '        # Handle even/odd numbers only, by starting on a number of the right kind\n        delta, parity = SumGrader.index_patterns[even_odd]\n        if parity is not None and first % 2 != parity:\n            first += 1\n\n'
+_W6_SORT = '        # Sort the limits\n        if first > last:\n            first, last = last, first\n\n'
+
 MUTANTS = [
+    Mutant('limits-ordered-after-parity-alignment', IG, [_W6_BODY, (_W6_TAIL[0], _W6_TAIL[1].replace('@@ORDER@@', _W6_ALIGN + _W6_SORT))], None, 'D1'),
     Mutant('table-helper-even-remainder-wrong', IG, [(_W5R_STEP[0][0], _W5R_STEP[0][1]), (_W5R_STEP[1][0], _W5R_STEP[1][1].replace('(2, 0)', '(2, 1)'))], None, 'D1'),
     Mutant('input-count-guard-accepts-too-many', IG, _W5R_COUNT[0], _W5R_COUNT[1].replace('len(used_inputs) == len(student_input)', 'len(used_inputs) <= len(student_input)'), 'D4'),
     Mutant('cutoff-helper-given-function-scope', IG, [_W5I_CONST, _W5I_LIMITS, (_W5I_CUTOFF[0], _W5I_CUTOFF[1] % 'funcscope'), _W5I_METHODS], None, 'D2'),
@@ -1909,6 +2033,7 @@ MUTANTS = [
 ]
 
 BENIGN = [
+    Benign('summation-indices-helper-with-pattern-table', IG, [_W6_BODY, (_W6_TAIL[0], _W6_TAIL[1].replace('@@ORDER@@', _W6_SORT + _W6_ALIGN))], None),
     Benign('first-index-and-step-from-table-helper', IG, _W5R_STEP, None),
     Benign('input-count-positive-guard-items', IG, _W5R_COUNT[0], _W5R_COUNT[1]),
     Benign('first-blank-key-via-bound-generator', IG, _W5R_BLANK[0], _W5R_BLANK[1]),
